@@ -261,6 +261,20 @@ func checkCmd(args []string) int {
 		fmt.Printf("VIOLATION property=%s replay=%s\n", spec.Property, path)
 		fmt.Printf("  harness=%s %s label=%s\n  %s\n  at %s\n  native: %s %s\n", f.Job.String(), f.Kind, f.Label, f.Detail, f.Site, f.Native.Outcome, firstLine(f.Native.Panic))
 	}
+	for _, r := range all {
+		if r.aborted == "" {
+			continue
+		}
+		confirmed := false
+		for i := range r.findings {
+			if st := r.findings[i].Status; st == "VIOLATION" || st == "KNOWN" {
+				confirmed = true
+			}
+		}
+		if !confirmed {
+			inconclusive = append(inconclusive, r.job.String()+": exploration aborted ("+r.aborted+") without a confirmed finding")
+		}
+	}
 	for _, k := range known {
 		if k.Property == spec.Property && k.Status == "known" {
 			if knownHit[k.ID] {
@@ -453,6 +467,7 @@ func runJob(prog *sym.Program, job Job, spec *Spec, solver string, timeoutMs int
 	}
 	seenF := map[string]int{}
 	seenU := map[string]bool{}
+	nFind := 0
 	e.Run(fn, func(pr sym.PathResult) {
 		k := pr.Out.Kind.String()
 		r.outcomes[k]++
@@ -482,6 +497,12 @@ func runJob(prog *sym.Program, job Job, spec *Spec, solver string, timeoutMs int
 				// a non-terminating path was found twice: every further path through the same loop costs a
 				// full time budget; the finding is reported, the rest of this job is not explored
 				e.Abort("non-termination finding " + label)
+			}
+			nFind++
+			if nFind >= 64 && time.Since(t0) > 20*time.Second {
+				// the job already carries findings to report; exploring every remaining path of a tree that
+				// violates the property can take arbitrarily long (each violating path is another fork)
+				e.Abort("many findings")
 			}
 			if seenF[key] > 3 { // keep a few witnesses per label
 				return
